@@ -30,7 +30,10 @@ type history struct {
 	Profile   string   `json:"profile"`
 	Start     gen.Ali  `json:"start"`
 	Comments  []string `json:"comments,omitempty"`
-	Ops       []opRec  `json:"ops"`
+	// Plan: the start object is produced by this chain of public operations ending on Start (provenance)
+	Plan *gen.Plan `json:"plan,omitempty"`
+	Pool string    `json:"pool,omitempty"`
+	Ops  []opRec   `json:"ops"`
 }
 
 // ---- generator ----------------------------------------------------------------------------------
@@ -46,6 +49,9 @@ var nameDict = []string{
 const ntChars = "ACGTACGTACGTacgtNnRYKM--"
 const aaChars = "ARNDCQEGHILKMFPSTWYVarndXx-*"
 
+// residues excluding one alphabet (U u O / E Q I L F P Z), both (1 ! J) or neither (A C G T N X - *)
+const mixedChars = "ACGTACGTUuOEQILFPZJXx1!-*Nn"
+
 type profile struct {
 	name string
 	ops  []string
@@ -55,7 +61,7 @@ var allOps = []string{
 	"add", "add", "add", "append", "concat", "rename", "rename", "renameregexp", "addid", "cleannames", "trimnames",
 	"trimnamesauto", "sort", "shuffle", "filterlength", "dedup", "rmgapseqs", "rmcharseqs", "rmgapsites", "rmcharsites", "rmmajsites",
 	"translate", "revcomp", "revcompsome", "toupper", "tolower", "trimseqs", "compress", "replace", "clone", "sample",
-	"clear", "setchar", "replacechar", "unalign", "setpolicy",
+	"clear", "setchar", "replacechar", "unalign", "setpolicy", "autoalphabet", "autoalphabet", "setalphabet",
 }
 
 var profiles = []profile{
@@ -64,7 +70,7 @@ var profiles = []profile{
 	{"names", []string{"rename", "rename", "renameregexp", "addid", "cleannames", "trimnames", "trimnamesauto", "sort", "add", "add",
 		"concat", "replacechar", "revcompsome", "append", "shuffle", "clone", "dedup", "setpolicy", "sample"}},
 	{"columns", []string{"add", "add", "append", "rmgapsites", "rmcharsites", "rmmajsites", "trimseqs", "compress", "translate", "concat", "replace",
-		"clear", "rmgapseqs", "filterlength", "setchar", "clone", "sample", "setpolicy"}},
+		"clear", "rmgapseqs", "filterlength", "setchar", "clone", "sample", "setpolicy", "autoalphabet", "dedup"}},
 	{"rows", []string{"add", "add", "add", "append", "filterlength", "filterlength", "dedup", "rmgapseqs", "rmcharseqs", "clear", "sample",
 		"clone", "setpolicy", "sort", "shuffle", "unalign", "translate", "rename"}},
 }
@@ -186,6 +192,8 @@ func drawOp(t *rapid.T, menu []string, chars string) opRec {
 		op.B = []bool{b("start")}
 	case "replace":
 		op.N = []int{in(0, len(replMenu)-1, "rule")}
+	case "setalphabet":
+		op.N = []int{in(0, 4, "alphabet")}
 	case "clone", "unalign", "setpolicy":
 		op.N = []int{in(0, 3, "policy")}
 		op.B = []bool{in(0, 2, "asbag") == 0} // clone: CloneSeqBag() even on an alignment
@@ -227,6 +235,17 @@ func genHistory(t *rapid.T) history {
 		h.Start.Alphabet = "aa"
 		chars = aaChars
 	}
+	h.Pool = "standard"
+	switch rapid.IntRange(0, 9).Draw(t, "pool") {
+	case 0, 1: // residues of both alphabets and of none, in any row
+		h.Pool = "mixed"
+		chars = mixedChars
+	case 2: // nucleotide rows and protein rows side by side
+		h.Pool = "nt+aa"
+	}
+	if rapid.IntRange(0, 3).Draw(t, "autoalphabet") == 0 {
+		h.Start.Alphabet = "auto" // built as the readers do: unknown alphabet, rows, AutoAlphabet
+	}
 	h.Policy = rapid.IntRange(0, 3).Draw(t, "policy")
 	h.StartKind = rapid.SampledFrom([]string{"empty", "one-row", "one-column", "mixed-case", "hostile-names", "duplicate-names", "clean-merge", "plain", "plain"}).Draw(t, "start")
 	maxRows := pbt.Scale(6, 8)
@@ -259,7 +278,11 @@ func genHistory(t *rapid.T) history {
 		if h.Kind == "seqbag" {
 			li = rapid.IntRange(bagMin, 12).Draw(t, "Li")
 		}
-		seq := gen.SeqN(t, chars, li)
+		rowChars := chars
+		if h.Pool == "nt+aa" {
+			rowChars = rapid.SampledFrom([]string{"ACGU", "ACGT-", aaChars, "MKLE", "ACGTN"}).Draw(t, "rowpool")
+		}
+		seq := gen.SeqN(t, rowChars, li)
 		if h.StartKind == "duplicate-names" && i > 0 && rapid.IntRange(0, 2).Draw(t, "sameseq") == 0 {
 			seq = h.Start.Rows[0].Seq
 			if h.Kind == "seqbag" || len(seq) == li {
@@ -278,8 +301,18 @@ func genHistory(t *rapid.T) history {
 	p := rapid.SampledFrom(profiles).Draw(t, "profile")
 	h.Profile = p.name
 	opChars := chars
-	if h.Start.Alphabet == "nt" {
+	if h.Start.Alphabet == "nt" && h.Pool == "standard" {
 		opChars = ntChars
+	}
+	// provenance: for a share of the alignments the start object is not freshly built but produced by
+	// a chain of public operations that ends on the same content
+	if h.Kind == "alignment" && len(h.Start.Rows) > 0 && len(h.Start.Rows[0].Seq) > 0 && distinct(h.Start.Rows) &&
+		rapid.IntRange(0, 1).Draw(t, "provenance") == 0 {
+		plan := gen.DrawPlan(t, h.Start, opChars, 3)
+		if len(plan.Steps) > 0 {
+			h.Plan = &plan
+			h.Comments = nil
+		}
 	}
 	// the number of steps is drawn explicitly (rapid's own slice lengths are strongly biased to short
 	// lists); shrinking lowers it and simplifies the remaining records
@@ -293,9 +326,23 @@ func genHistory(t *rapid.T) history {
 
 // ---- check --------------------------------------------------------------------------------------
 
+func distinct(rows []gen.Row) bool {
+	seen := map[string]bool{}
+	for _, r := range rows {
+		if seen[r.Name] {
+			return false
+		}
+		seen[r.Name] = true
+	}
+	return true
+}
+
 func alphabetCode(s string) int {
-	if s == "aa" {
+	switch s {
+	case "aa":
 		return align.AMINOACIDS
+	case "auto":
+		return align.UNKNOWN
 	}
 	return align.NUCLEOTIDS
 }
@@ -308,8 +355,38 @@ func checkHistory(h history) (o pbt.Outcome, err error) {
 	if e := observe(c.sb, m); e != nil {
 		return o, fmt.Errorf("new container: %v", e)
 	}
+	startRows := h.Start.Rows
+	if h.Plan != nil && !m.bag {
+		forced := h.Start
+		if forced.Alphabet == "auto" {
+			forced.Alphabet = "nt" // gen.Build detects by itself for "auto"; here detection is an explicit, judged step
+			m.alphabet = align.NUCLEOTIDS
+		}
+		if al, usable := gen.BuildVia(forced, *h.Plan); usable {
+			al.IgnoreIdentical(policyOf(h.Policy))
+			c.sb = al
+			for _, r := range startRows {
+				m.rows = append(m.rows, row{Name: r.Name, Seq: r.Seq})
+			}
+			startRows = nil
+			o.Class("provenance=chain-of-%d", len(h.Plan.Steps))
+			for _, k := range h.Plan.Kinds() {
+				o.Class("provenance-step=%s", k)
+			}
+			if e := observe(c.sb, m); e != nil {
+				return o, fmt.Errorf("start object produced by %s: %v", h.Plan.String(), e)
+			}
+		} else {
+			o.Class("provenance-unusable")
+			if h.Start.Alphabet == "auto" {
+				m.alphabet = align.UNKNOWN
+			}
+		}
+	} else {
+		o.Class("provenance=fresh")
+	}
 	// the start rows are inserted one by one under the policy: they are insertions like any other
-	for i, r := range h.Start.Rows {
+	for i, r := range startRows {
 		cm := ""
 		if i < len(h.Comments) {
 			cm = h.Comments[i]
@@ -341,6 +418,18 @@ func checkHistory(h history) (o pbt.Outcome, err error) {
 			return o, fmt.Errorf("after %s: %v", what, e)
 		}
 	}
+	if h.Start.Alphabet == "auto" {
+		if _, e := c.autoAlphabet(opRec{Op: "autoalphabet"}); e != nil {
+			return o, fmt.Errorf("AutoAlphabet on the start rows: %v", e)
+		}
+		if e := observe(c.sb, m); e != nil {
+			return o, fmt.Errorf("after AutoAlphabet on the start rows: %v", e)
+		}
+	}
+	if h.Pool == "" {
+		h.Pool = "fixed"
+	}
+	o.Class("pool=%s", h.Pool)
 	prev := "start"
 	lookups0 := collisionLookups
 	for k, op := range h.Ops {
@@ -507,6 +596,9 @@ func canonicalOps() []opRec {
 		{Op: "replacechar", N: []int{1, 3, 0}, S: []string{"T", "nosuch"}},
 		{Op: "replacechar", N: []int{-1, 0, 0}, S: []string{"T", "nosuch"}},
 		{Op: "unalign", N: []int{0}},
+		{Op: "autoalphabet"},
+		{Op: "setalphabet", N: []int{0}},
+		{Op: "setalphabet", N: []int{1}},
 		{Op: "setpolicy", N: []int{0}},
 		{Op: "setpolicy", N: []int{1}},
 		{Op: "setpolicy", N: []int{2}},
@@ -523,13 +615,14 @@ func pairStarts() []history {
 		mk("alignment", "nt", "empty"),
 		mk("alignment", "nt", "duplicate-names", gen.Row{Name: "a", Seq: "ACGT"}, gen.Row{Name: "a", Seq: "ACGT"}, gen.Row{Name: "a", Seq: "TTTT"}, gen.Row{Name: "a_0001", Seq: "GG-A"}),
 		mk("alignment", "nt", "clean-merge", gen.Row{Name: "a.b", Seq: "ACGTA"}, gen.Row{Name: "x", Seq: "AC-TA"}, gen.Row{Name: "a:b", Seq: "TTGCA"}, gen.Row{Name: " x", Seq: "GGGCA"}),
+		mk("seqbag", "auto", "mixed-alphabets", gen.Row{Name: "r", Seq: "ACGUACG"}, gen.Row{Name: "p", Seq: "MKXLE"}, gen.Row{Name: "q", Seq: "MK-LE"}, gen.Row{Name: "d", Seq: "ACGTNCG"}),
 		mk("alignment", "aa", "mixed-case", gen.Row{Name: "S1", Seq: "MKXx-L"}, gen.Row{Name: "S2", Seq: "mkXX-L"}, gen.Row{Name: "n:1", Seq: "MK---L"}),
 	}
 }
 
 func TestOperationPairs(t *testing.T) {
 	ops := canonicalOps()
-	pbt.Enumerate(t, fmt.Sprintf("every ordered pair of %d canonical operation variants x 6 start states x 3 duplicate-name policies", len(ops)),
+	pbt.Enumerate(t, fmt.Sprintf("every ordered pair of %d canonical operation variants x 7 start states x 3 duplicate-name policies", len(ops)),
 		func(yield func(history) bool) {
 			for _, st := range pairStarts() {
 				for p := 0; p < 3; p++ {
